@@ -112,7 +112,8 @@ MCListOps ==
              [m |-> "setitem", i |-> 0, v |-> D1(<<"p">>, IntV(70))],
              [m |-> "item_set", i |-> 0, k |-> "p", v |-> IntV(8)], [m |-> "item_set", i |-> 0, k |-> "p", v |-> IntV(0)],
              [m |-> "item_set", i |-> 0, k |-> "q", v |-> s(<<"n">>)],
-             [m |-> "insert", i |-> 0, v |-> D2(<<"p">>, IntV(4), <<"q">>, s(<<"w">>))], [m |-> "pop"]}]
+             [m |-> "insert", i |-> 0, v |-> D2(<<"p">>, IntV(4), <<"q">>, s(<<"w">>))], [m |-> "pop"],
+             [m |-> "item_reset", i |-> 0, k |-> "p"], [m |-> "setitem_same", i |-> 0]}]
 MCDictOps ==
     [pk \in {<< <<>>, "d">>, << <<>>, "raw">>} |->
       IF pk[2] = "raw" THEN {[m |-> "setitem", k |-> s(<<"u">>), v |-> IntV(1)], [m |-> "setitem", k |-> s(<<"u">>), v |-> s(<<"w">>)], [m |-> "clear"]}
@@ -174,14 +175,15 @@ MCListOpsV ==
     [pk \in {<< <<>>, "srv">>} |->
         {[m |-> "append", v |-> D1(<<"h", "o", "s", "t">>, s(<<"h", "1">>))], [m |-> "append", v |-> D1(<<"h", "o", "s", "t">>, s(<<"x">>))],
          [m |-> "append", v |-> D1(<<"p", "o", "r", "t">>, IntV(3))], [m |-> "item_set", i |-> 0, k |-> "host", v |-> NoneV],
-         [m |-> "item_set", i |-> 0, k |-> "host", v |-> s(<<"x">>)], [m |-> "pop"]}]
+         [m |-> "item_set", i |-> 0, k |-> "host", v |-> s(<<"x">>)], [m |-> "pop"],
+         [m |-> "item_reset", i |-> 0, k |-> "host"], [m |-> "setitem_same", i |-> 0], [m |-> "setitem_same", i |-> 1]}]
 MCDictOpsV == [pk \in {<< <<>>, "opts">>} |-> {[m |-> "clear"], [m |-> "setitem", k |-> s(<<"k", "k">>), v |-> IntV(3)]}]
 
 (* ---- the generated schema family (Generic = TRUE): every root schema with two (three) keys, each
         key one of the node shapes below - scalar fields of every validation flavour, typed
         containers, list of configurations, nested schemas to depth 2, a ConfigType, a dynamic
         and a validator-carrying sub-schema.  Candidate values come from ConfigMachine!Gen*. ---- *)
-GItemS == SchemaF(<< <<"p", With(IntF, [hasmin |-> TRUE, min |-> 1, hasmax |-> TRUE, max |-> 9, default |-> IntV(1)])>> >>)
+GItemS == SchemaF(<< <<"p", With(IntF, [hasmin |-> TRUE, min |-> 1, hasmax |-> TRUE, max |-> 9, required |-> TRUE])>> >>)
 GLeaves == <<
     With(IntF, [hasmin |-> TRUE, min |-> 1, hasmax |-> TRUE, max |-> 9, default |-> IntV(5)]),
     With(IntF, [required |-> TRUE]),
@@ -192,7 +194,13 @@ GLeaves == <<
     With(BytesF, [encoding |-> "hex"]),
     With(ListF(With(IntF, [hasmin |-> TRUE, min |-> 0])), [default |-> ListV(<<>>)]),
     With(DictF(StringF, IntF), [default |-> DictV(<<>>)]),
-    With(ListF(GItemS), [default |-> ListV(<<>>)]) >>
+    With(ListF(GItemS), [default |-> ListV(<<>>)]),
+    \* the field classes with a __setdefault__ of their own, with non-empty defaults
+    With(ListF(NoF), [default |-> ListV(<<IntV(1), IntV(2)>>)]),
+    With(DictF(NoF, NoF), [default |-> D1(<<"k">>, IntV(1))]),
+    With(DictF(StringF, IntF), [default |-> D2(<<"k">>, IntV(1), <<"m">>, IntV(2))]),
+    With(ListF(With(IntF, [hasmin |-> TRUE, min |-> 0])), [default |-> ListV(<<IntV(1), IntV(2)>>)]),
+    With(ChallengeF, [alg |-> "md5", default |-> s(<<"p", "w", "d", "0">>)]) >>
 GSubs == <<
     SchemaF(<< <<"x", With(IntF, [default |-> IntV(1), required |-> TRUE])>>, <<"y", With(StringF, [choices |-> << <<"u">>, <<"v">> >>])>> >>),
     [validators |-> <<"x_not_3">>] @@ SchemaF(<< <<"x", With(IntF, [default |-> IntV(1)])>> >>),
@@ -212,7 +220,14 @@ MCFamily3 == MCFamily2 \o [i \in 1..(Len(GSubs) * Len(GLeaves) * NG) |->
                             <<"d", GNodes[((i - 1) % NG) + 1]>> >>)]
 MCNoFamily == <<>>
 \* replay sample: every FAM_STRIDE-th schema (environment of the TLC run)
-SidSample == (sid % atoi(IOEnv.FAM_STRIDE)) = atoi(IOEnv.FAM_PHASE)
+\* C02 replay aid: the second step of an exported behaviour is a round trip (format FAM_FMT) of
+\* whatever state the first step produced
+NextThenRoundTrip ==
+    \/ steps = 0 /\ Next
+    \/ steps >= 1 /\ \E n \in Names : Tick /\ RoundTrip(n, IOEnv.FAM_FMT)
+\* plus the "diagonal" (both keys of the same node shape), so that every shape is replayed by every run
+DiagSids == {i \in DOMAIN FamilySeq : Len(FamilySeq[i].fields) = 2 /\ FamilySeq[i].fields[1][2] = FamilySeq[i].fields[2][2]}
+SidSample == (sid % atoi(IOEnv.FAM_STRIDE)) = atoi(IOEnv.FAM_PHASE) \/ sid \in DiagSids
 
 (* ---- instance B: the textual and numeric field classes inside a configuration (C01, C06, C12) ---- *)
 NestB == SchemaF(<< <<"addr", With(IPv4AddrF, [default |-> s(<<"1", "0", ".", "0", ".", "0", ".", "1">>)])>>, <<"cnt", With(IntF, [hasmin |-> TRUE, min |-> 1, default |-> IntV(1)])>> >>)
